@@ -157,5 +157,44 @@ pub fn static_family() -> Vec<(String, Program)> {
             ],
         },
     ));
+    // P5: match scoping: binders of one arm are not visible in the other arm; an outer variable with the name of
+    // the left binder (at another type) is what the right arm sees
+    {
+        let e_ty = Ty::either(u(8), u(16));
+        let arms = |right_uses: &str| {
+            match_(
+                var("e"),
+                (MPat::Left("a".into(), u(8)), jet("left_pad_low_8_16", vec![var("a")])),
+                (MPat::Right("b".into(), u(16)), jet("xor_16", vec![var("b"), var(right_uses)])),
+            )
+        };
+        out.push((
+            "P5-match-scopes".to_string(),
+            Program {
+                items: vec![
+                    f("pick", vec![("e", e_ty.clone()), ("k", u(16))], Some(u(16)), vec![], Some(arms("k"))),
+                    f(
+                        "main",
+                        vec![],
+                        None,
+                        vec![
+                            let_(Pat::id("a"), u(16), dec(7)),
+                            let_(Pat::id("e"), e_ty.clone(), wit("E")),
+                            let_(Pat::id("r"), u(16), arms("a")),
+                            let_(Pat::id("o"), Ty::opt(u(8)), wit("O")),
+                            let_(Pat::id("sv"), u(8), match_(var("o"), (MPat::None, dec(1)), (MPat::Some("x".into(), u(8)), var("x")))),
+                            let_(Pat::id("tv"), u(8), match_(var("o"), (MPat::Some("y".into(), u(8)), var("y")), (MPat::None, var("sv")))),
+                            s(assert_(jet("eq_16", vec![var("r"), fcall("pick", vec![var("e"), var("a")])]))),
+                            s(assert_(jet("eq_8", vec![var("sv"), var("tv")]))),
+                            let_(Pat::id("bb"), Ty::Bool, wit("B")),
+                            let_(Pat::id("q"), u(8), match_(var("bb"), (MPat::True, var("sv")), (MPat::False, var("tv")))),
+                            s(assert_(jet("eq_8", vec![var("q"), var("sv")]))),
+                        ],
+                        None,
+                    ),
+                ],
+            },
+        ));
+    }
     out
 }
